@@ -388,6 +388,12 @@ func localCalls(w *World, ri int, alpha string) []pt.Action {
 				add(pt.Action{Op: "dins", T: t, P: n, N: 2, V: "a"})
 				if n >= 2 {
 					add(pt.Action{Op: "dupd", T: t, P: 0, N: 2, V: "a"})
+					// a range delete: its targets may come from one operation without being neighbours in its numbering
+					// (containers number their members in between; an earlier delete leaves a hole)
+					add(pt.Action{Op: "darrdel", T: t, P: 0, N: 2})
+				}
+				if n >= 3 {
+					add(pt.Action{Op: "darrdel", T: t, P: n - 3, N: 3})
 				}
 			}
 			if n > 0 {
